@@ -261,6 +261,13 @@ class EditMedia(HTMLHandlerBase):
         abs_path = models.MediaFile.absolute_path(mf.stream.directory)
         filename = Path(mf.blob.filename)
         new_name = generate_new_filename(abs_path, filename.stem, filename.suffix)
+        attempt = 1
+        while models.Blob.get_one(filename=new_name.name) is not None:
+            # blob names are unique across all streams, not only within
+            # the directory of this stream
+            new_name = generate_new_filename(
+                abs_path, f'{filename.stem}_{attempt:02d}x', filename.suffix)
+            attempt += 1
 
         def modify_atoms(wrap: mp4.Wrapper) -> bool:
             modified = False
